@@ -49,7 +49,8 @@ DRIVERS = ["drv_c22"]
 RULE = ("one case = one generated Modelica model with constants, parameters (scalar and vector), fixed and non-fixed "
         "top-level inputs, states, algebraic variables, optionally a component instance (parameter, nested input, state, "
         "algebraic) and optionally a for-loop over vector variables; 1-4 delay() calls in equations, initial equations and "
-        "loop bodies (also nested in a delayed expression or in a duration), durations drawn from every category mix; "
+        "loop bodies (also nested in a delayed expression or in a duration), durations drawn from every category mix, also "
+        "reaching the offending symbol only below if-conditions / floor / ceil / sign; optionally a 2-D algebraic array; "
         "options default / unroll_loops=False / expand_mx; stream simp: eliminated alias/eliminable variables in durations "
         "under the simplification options; stream cache: two calls on one folder with cache=True / codegen=True. non-trivial = at least one delay whose duration mentions a "
         "declared symbol, or at least two delays; distinct = distinct case description")
@@ -64,6 +65,8 @@ ASSUMPTIONS = ["main stream: default compiler options except unroll_loops / expa
                "cache stream: no vector parameters (load_model cannot read a cache with a vector parameter: RuntimeError in "
                "variable_metadata, a C19 matter)",
                "for-loops run from 1 with step 1 over declared vector sizes; loop-indexed references are `v[i]`",
+               "durations may reach a symbol only through a condition, a comparison or floor/ceil/sign (piecewise constant in "
+               "it): that is still a dependence; a 2-D algebraic array is declared in part of the main-stream models",
                "every delayed expression mentions at least one symbol (delay of a bare literal is not generated: the generator "
                "calls .size() on a Python number)",
                "in-loop durations that mention the loop index or a loop-indexed variable, and in-loop delayed expressions "
